@@ -174,6 +174,22 @@ def run_property(prop: str, tier: str, root: str, seed: int, write_evidence: boo
     return 1 if violations else 0
 
 
+def _rule_docs(spec) -> str:
+    """One line per armed rule, taken from the rule function's docstring (so the evidence
+    always describes the rules that actually ran)."""
+    from .rules import RULES, RULE_DOC
+
+    out = []
+    for r in spec["rules"]:
+        fn = RULES.get(r)
+        doc = (getattr(fn, "__doc__", None) or RULE_DOC.get(r.split("@")[0], "")).strip().split("\n\n")[0]
+        doc = " ".join(doc.split())
+        if len(doc) > 260:
+            doc = doc[:257].rsplit(" ", 1)[0] + " …"
+        out.append(f"{r}: {doc}" if doc else f"{r}: see DESIGN.md §3 / §10.2")
+    return " || Armed rules — " + " | ".join(out)
+
+
 def write_ev(prop, spec, tier, seed, results, violations, known_hits, advisories, wall, ctx) -> None:
     os.makedirs(EVIDENCE_DIR, exist_ok=True)
     samples = []
@@ -193,7 +209,7 @@ def write_ev(prop, spec, tier, seed, results, violations, known_hits, advisories
         "seed": seed,
         "level": "other",
         "coverage": {
-            "explanation": spec["explanation"],
+            "explanation": spec["explanation"] + _rule_docs(spec),
             "evaluations": max(inst, 1),
             "distinct_nontrivial": nontriv,
             "rule": "one evaluation = one rule instance (dispatch case, call site, primitive, edit site, table row) examined in /repo's source; "
